@@ -573,6 +573,7 @@ class Machine(object):
         callee = self.new_frame(proc)
         bound = {}
         copy_back = []
+        views = []
         for a, (pname, pdims, pty) in zip(args, inf_params):
             pty = pty or (("STRING", 32) if pname.endswith("$") else ("REAL",))
             obj = None
@@ -587,6 +588,18 @@ class Machine(object):
                     ok = True
                 elif isinstance(obj, Arr) and pdims:
                     ok = True
+                if ok and isinstance(obj, Cell) and pty[0] == "STRING":
+                    # a string parameter is the caller's storage seen through the callee's declared size: the callee
+                    # reads and writes at most that many characters
+                    pn = pty[1] if isinstance(pty[1], int) else 32
+                    on = obj.t[1] if isinstance(obj.t[1], int) else 32
+                    if pn < on:
+                        c = Cell(pty, pname)
+                        c.v = obj.v[:pn]
+                        c.init = obj.init
+                        bound[pname] = c
+                        views.append((obj, c, c.v, c.init))
+                        continue
                 if ok:
                     bound[pname] = obj
                     continue
@@ -620,6 +633,9 @@ class Machine(object):
             self._frame = saved
         for obj, c in copy_back:
             if c.init:
+                obj.store(c.v)
+        for obj, c, v0, i0 in views:
+            if c.v != v0 or (c.init and not i0):
                 obj.store(c.v)
 
     def do_run(self, frame, s):
@@ -893,15 +909,21 @@ class Machine(object):
 _LIB_CACHE = {}
 
 
-def load_library(path):
+def load_library(path, storage=32):
+    """Parse the bundled library the way the tool ships it for a given string-storage setting: the STRING<<>> tag
+    stands for the configured size (plain STRING, 32 bytes, by default)."""
     import os
+    import re
 
     st = os.stat(path)
-    key = (path, st.st_mtime_ns, st.st_size)
+    key = (path, st.st_mtime_ns, st.st_size, storage)
     if key not in _LIB_CACHE:
         text = open(path).read()
+        if storage != 32:
+            text = re.sub(r"(?i)(:\s*string)<<>>", lambda m: "%s[%d]" % (m.group(1), storage), text)
         procs = parse_program(text)
-        _LIB_CACHE.clear()
+        for k in [k for k in _LIB_CACHE if k[:3] != key[:3]]:
+            del _LIB_CACHE[k]
         _LIB_CACHE[key] = (static.interface_table(procs), text)
     return _LIB_CACHE[key]
 
